@@ -4,7 +4,7 @@ open Lean
 namespace Gorm.Drv
 open Gorm.Upsert
 
-namespace C16
+namespace HC16
 
 def parseKind (j : Json) : Option ColKind := do
   let a ← jArr? j
@@ -119,20 +119,21 @@ def outJ (sch : Schema) (o : Out) : Json :=
   Json.mkObj [("rows", Json.arr rows.toArray), ("next", natJ o.store.next), ("val", rowJ sch o.val),
     ("ra", natJ o.ra), ("err", Json.str (match o.err with | .ok => "ok" | .unique => "unique"))]
 
-end C16
+end HC16
 
+open HC16 in
 /-- line-protocol handler for C16:
     ["c16.run", cfg, kinds, rows, next, steps, fin] -> {rows, next, val, ra, err}
     ["c16.gencfg"] -> [clauses, attrs, assigns] of the regenerated clone facts -/
 def handleC16 (op : String) (args : Array Json) : Option Json := do
   match op with
   | "c16.run" =>
-    let cfg ← C16.parseCfg (arg args 1)
-    let sch ← C16.parseSchema (arg args 2)
-    let st ← C16.parseStore (arg args 3) (arg args 4)
-    let steps ← (← jArr? (arg args 5)).toList.mapM C16.parseStep
-    let fin ← C16.parseFin (arg args 6)
-    some (C16.outJ sch (runChain cfg sch st steps fin))
+    let cfg ← parseCfg (arg args 1)
+    let sch ← parseSchema (arg args 2)
+    let st ← parseStore (arg args 3) (arg args 4)
+    let steps ← (← jArr? (arg args 5)).toList.mapM parseStep
+    let fin ← parseFin (arg args 6)
+    some (outJ sch (runChain cfg sch st steps fin))
   | "c16.gencfg" =>
     some (Json.arr #[Json.bool genCfg.clauses, Json.bool genCfg.attrs, Json.bool genCfg.assigns])
   | _ => none
